@@ -382,9 +382,49 @@ Fixpoint kloop (kf fuel : nat) (c : config) (a : arena) (sl : seeds) (root : N) 
       end
   end.
 
-(* exact probability of the lineage under the semantics the compiled SDD has *)
+(* ---------- what compile_lineage_to_sdd_with_clock hands to the SDD manager ---------- *)
+(* a weighted Boolean variable: (id, (weight when true, weight when false)) *)
+Definition wvar := (N * (Q * Q))%type.
+
+(* weighted count of a Boolean function over a list of weighted variables (what `wmc` returns for an SDD
+   denoting f over these variables - the SDD manager's contract, property C07) *)
+Fixpoint wsumk (vars : list wvar) (k : world -> Q) (acc : world) : Q :=
+  match vars with
+  | [] => k acc
+  | (v, (wt, wf)) :: r => (wt * wsumk r k (v :: acc) + wf * wsumk r k acc)%Q
+  end.
+Definition ind (b : bool) : Q := if b then 1%Q else 0%Q.
+Definition wsum (vars : list wvar) (f : world -> bool) (acc : world) : Q := wsumk vars (fun a => ind (f a)) acc.
+
+(* ensure_variable (independent: p, 1-p) / ensure_variable_weights(p, 1.0, ExclusiveGroup) *)
+Definition var_of (r : seedrec) : wvar := (sid r, (sprob r, if is_indep r then (1 - sprob r)%Q else 1%Q)).
+
+(* `groups`: the groups of the referenced seeds (a BTreeSet: ascending) *)
+Definition referenced_groups (sl : seeds) (refs : list N) : list N :=
+  filter (fun g => existsb (fun r => memN (sid r) refs) (members sl g)) (group_ids sl).
+(* `expanded`: the referenced seeds and every member of their groups *)
+Definition in_expanded (refs rgs : list N) (r : seedrec) : bool :=
+  memN (sid r) refs || match sgroup r with Some g => memN g rgs | None => false end.
+
+Record plan := mk_plan {
+  p_vars : list wvar;                 (* the variables registered in the manager, with their weights *)
+  p_constraints : list (list N) }.    (* one exactly-one constraint per referenced group: the choices it ranges over *)
+
+Definition compile_plan (sl : seeds) (a : arena) (root : N) : plan :=
+  let refs := seeds_of a root in
+  let rgs := referenced_groups sl refs in
+  mk_plan (map var_of (filter (in_expanded refs rgs) sl))
+          (map (fun g => map sid (members sl g)) rgs).     (* seeds.group(group): ALL choices of the group *)
+
+Definition exactly_one (w : world) (vars : list N) : bool := Nat.eqb (count_true w vars) 1.
+(* the compiled root: lineage AND exactly_one(group) for every referenced group *)
+Definition plan_formula (a : arena) (root : N) (p : plan) : world -> bool :=
+  fun w => sem a root w && forallb (exactly_one w) (p_constraints p).
+Definition plan_wmc (a : arena) (root : N) (p : plan) : Q := wsum (p_vars p) (plan_formula a root p) [].
+
+(* the value the exact fallback obtains from the manager *)
 Definition exact_probability (sl : seeds) (a : arena) (root : N) : Q :=
-  if has_exclusive sl a root then Qred (ProbX_node sl a root) else Qred (Prob_node sl a root).
+  Qred (plan_wmc a root (compile_plan sl a root)).
 
 Definition evaluate_with (exact : Q) (kf fuel : nat) (c : config) (a : arena) (sl : seeds) (root : N) (clk : N -> N) (orc : sddoracle) : result :=
   if negb (validate c) then RNeedsExact None None DiagnosticOnly metrics0
